@@ -17,6 +17,7 @@
 //!   A4  std::cmp::min(a,b), cmp::max(a,b)   -> (a).min(b), (a).max(b)      [definition of core::cmp::{min,max}]
 //!   A5  m!(e) for a macro_rules m lifted by //@MACRO  -> m(e)
 //!   A6  X.field (X a local, not self)       -> field
+//!   A8  <place>.compare_exchange(a, b, ORD, ORD).is_ok()  -> cas_ok   (a bool parameter: the outcome of the CAS is an input of the snippet)
 //!   A7  `as usize`/`as isize`/`as u64` casts, shifts, literals: verbatim (usize/isize are 64 bit: `global size_of usize == 8`)
 use crate::emit::{sha256_hex, toks};
 use crate::index::SrcIndex;
@@ -78,6 +79,10 @@ impl<'a> VisitMut for Rewriter<'a> {
                 } else {
                     None
                 }
+            }
+            syn::Expr::MethodCall(m) if m.method == "is_ok" && matches!(&*m.receiver, syn::Expr::MethodCall(i) if i.method == "compare_exchange") => {
+                // A8
+                Some(syn::parse_quote!(cas_ok))
             }
             syn::Expr::MethodCall(m) => {
                 let name = m.method.to_string();
